@@ -70,23 +70,26 @@ Theorem C14_enum_len_stable : forall bs n, EnumScanner.enum_len bs = (EnumScanne
 Proof. exact EnumProofs.enum_len_stable. Qed.
 Print Assumptions C14_enum_len_stable.
 
-(* Property C14 for Schema.Len (model SchemaScanner.schema_len).  What Len returns is a prefix
-   length: not longer than the text and, when positive, not ending in a blank.
-   "Positive" does NOT hold for every text: Len is 0 for an empty text, a text of blanks, a text that
-   is only a comment, or a lone '/' (see the examples below).  The requested statement is therefore
-   split: C14_schema_len_prefix is the requested one without (0 < n) (and with the last-byte clause
-   guarded by 0 < n); C14_schema_len_positive gives (0 < n) for every text that begins, after blanks,
-   with a byte other than '#' and '/', i.e. with a value.
+(* Property C14 for Schema.Len (model SchemaScanner.schema_len, after the fixes 555884d and c67ddfe).
+   What Len returns is a prefix length: positive, not longer than the text, not ending in a blank.
+   (Before the fix c67ddfe Len was 0 for an empty text, a text of blanks, a text that is only a
+   comment, or a lone '/'; these are now the error 202, see the examples.)
    Proofs in SchemaScan/SchemaProofs.v. *)
 From JS Require SchemaScan.SchemaScanner SchemaScan.SchemaProofs.
 
 Theorem C14_schema_len_prefix : forall (bs : Wire.bytes) n,
   SchemaScanner.schema_len bs = SchemaScanner.VLen n ->
-  (N.to_nat n <= List.length bs)%nat /\
-  (forall c, nth_error bs (N.to_nat n - 1) = Some c -> (0 < n)%N -> SchemaScanner.is_blank c = false).
+  (0 < n)%N /\ (N.to_nat n <= List.length bs)%nat /\
+  (forall c, nth_error bs (N.to_nat n - 1) = Some c -> SchemaScanner.is_blank c = false).
 Proof. exact SchemaProofs.schema_len_prefix. Qed.
 Print Assumptions C14_schema_len_prefix.
 
+Theorem C14_schema_len_positive_always : forall (bs : Wire.bytes) n,
+  SchemaScanner.schema_len bs = SchemaScanner.VLen n -> (0 < n)%N.
+Proof. exact SchemaProofs.schema_len_positive_always. Qed.
+Print Assumptions C14_schema_len_positive_always.
+
+(* kept: now a special case of C14_schema_len_positive_always *)
 Theorem C14_schema_len_positive : forall (pre : Wire.bytes) c (r : Wire.bytes) n,
   forallb SchemaScanner.is_blank pre = true -> SchemaScanner.is_blank c = false ->
   SchemaScanner.ch c 35 = false -> SchemaScanner.ch c 47 = false ->
@@ -95,11 +98,98 @@ Proof. exact SchemaProofs.schema_len_positive. Qed.
 Print Assumptions C14_schema_len_positive.
 
 Example C14_schema_len_examples :
-  SchemaScanner.schema_len [] = SchemaScanner.VLen 0 /\
-  SchemaScanner.schema_len (of_string "  "%string) = SchemaScanner.VLen 0 /\
-  SchemaScanner.schema_len (of_string "#abc"%string) = SchemaScanner.VLen 0 /\
-  SchemaScanner.schema_len (of_string "/"%string) = SchemaScanner.VLen 0 /\
-  SchemaScanner.schema_len [x0a; x0a] = SchemaScanner.VLen 0 /\
+  SchemaScanner.schema_len [] = SchemaScanner.VErr 202 0 /\
+  SchemaScanner.schema_len (of_string "  "%string) = SchemaScanner.VErr 202 0 /\
+  SchemaScanner.schema_len (of_string "#abc"%string) = SchemaScanner.VErr 202 0 /\
+  SchemaScanner.schema_len (of_string "/"%string) = SchemaScanner.VErr 202 0 /\
+  SchemaScanner.schema_len [x0a; x0a] = SchemaScanner.VErr 202 0 /\
+  SchemaScanner.schema_len ([x0a] ++ of_string "1"%string) = SchemaScanner.VLen 2 /\
   SchemaScanner.schema_len (of_string "12 x"%string) = SchemaScanner.VLen 2 /\
+  SchemaScanner.schema_len (of_string "12x"%string) = SchemaScanner.VLen 2 /\
   SchemaScanner.schema_len (of_string "{} // {a: 1}  "%string ++ [x0a] ++ of_string "GET"%string) = SchemaScanner.VLen 12.
 Proof. vm_compute. repeat split; reflexivity. Qed.
+
+(* Property C14, Len against the scan of the returned prefix (proofs and counterexamples in
+   SchemaScan/SchemaLenProofs.v).
+   - Len fails with the DocumentError of the length-mode scan when that error comes BEFORE any EndTop
+     event (an error after EndTop is never seen: "1 x ##a" has Len 1 while the scan ends in Err 301
+     at 5), and with its own error 202 at 0 when the scan stopped or ended well but nothing except
+     blanks was found.
+   - "Len of the returned prefix is the same number" is FALSE with a trailing comment:
+       "1 # comment" LF "GET"      Len 11, Len of the prefix 1;   "1#" LF "11"   Len 2, then 1
+     and holds on every text of at most 5 bytes over SchemaLenProofs.alpha without '#'.
+   - "the returned prefix is accepted by the plain scanner" is FALSE:
+       "1 // {#c" LF "} #d" LF "x" Len 13, the plain scanner rejects the prefix at 10 (the
+                                   length-mode scanner accepts it, with Len 10)
+     and holds on every text of at most 5 bytes over SchemaLenProofs.alpha; for the length-mode scanner
+     no counterexample is known and it holds on the same texts.
+   - The two counterexamples caused by hasTrailingCharacters ("1*" LF "11", "1x" LF "/*a*/ y") are
+     gone with the fix 555884d. *)
+From JS Require SchemaScan.SchemaLenProofs.
+
+Theorem C14_schema_len_error_iff : forall (bs : Wire.bytes) c p,
+  SchemaScanner.schema_len bs = SchemaScanner.VErr c p <->
+  (SchemaLenProofs.has_endtop (fst (SchemaScanner.scan true bs)) = false /\
+   snd (SchemaScanner.scan true bs) = SchemaScanner.Err c p) \/
+  ((SchemaLenProofs.has_endtop (fst (SchemaScanner.scan true bs)) = true \/
+    snd (SchemaScanner.scan true bs) = SchemaScanner.Done) /\
+   SchemaLenProofs.nothing_found bs = true /\ c = SchemaScanner.code_empty_schema /\ p = 0%N).
+Proof. exact SchemaLenProofs.schema_len_error_iff. Qed.
+Print Assumptions C14_schema_len_error_iff.
+
+Theorem C14_schema_len_value_iff : forall bs : Wire.bytes,
+  (exists n, SchemaScanner.schema_len bs = SchemaScanner.VLen n) <->
+  ((SchemaLenProofs.has_endtop (fst (SchemaScanner.scan true bs)) = true \/
+    snd (SchemaScanner.scan true bs) = SchemaScanner.Done) /\
+   SchemaLenProofs.nothing_found bs = false).
+Proof. exact SchemaLenProofs.schema_len_value_iff. Qed.
+Print Assumptions C14_schema_len_value_iff.
+
+(* bounded forms of the two false statements *)
+Theorem C14_schema_len_stable : forall (bs : Wire.bytes) n, SchemaLenProofs.short bs ->
+  SchemaLenProofs.no_hash bs = true ->
+  SchemaScanner.schema_len bs = SchemaScanner.VLen n ->
+  SchemaScanner.schema_len (firstn (N.to_nat n) bs) = SchemaScanner.VLen n.
+Proof. exact SchemaLenProofs.schema_len_stable_bounded. Qed.
+Print Assumptions C14_schema_len_stable.
+
+Theorem C14_schema_len_prefix_is_complete : forall (bs : Wire.bytes) n, SchemaLenProofs.short bs ->
+  SchemaScanner.schema_len bs = SchemaScanner.VLen n ->
+  snd (SchemaScanner.scan false (firstn (N.to_nat n) bs)) = SchemaScanner.Done.
+Proof. exact SchemaLenProofs.schema_len_prefix_complete_bounded. Qed.
+Print Assumptions C14_schema_len_prefix_is_complete.
+
+Theorem C14_schema_len_prefix_accepted_in_length_mode : forall (bs : Wire.bytes) n,
+  SchemaLenProofs.short bs -> SchemaScanner.schema_len bs = SchemaScanner.VLen n ->
+  snd (SchemaScanner.scan true (firstn (N.to_nat n) bs)) = SchemaScanner.Done /\
+  exists m, SchemaScanner.schema_len (firstn (N.to_nat n) bs) = SchemaScanner.VLen m /\ (m <= n)%N.
+Proof. exact SchemaLenProofs.schema_len_prefix_accepted_bounded. Qed.
+Print Assumptions C14_schema_len_prefix_accepted_in_length_mode.
+
+(* the counterexamples that survive the repairs, and the two that are gone *)
+Example C14_schema_len_stable_false :
+  SchemaScanner.schema_len SchemaLenProofs.cex_comment = SchemaScanner.VLen 11 /\
+  SchemaScanner.schema_len (firstn 11 SchemaLenProofs.cex_comment) = SchemaScanner.VLen 1.
+Proof. exact SchemaLenProofs.schema_len_stable_false. Qed.
+Example C14_schema_len_error_after_endtop :
+  snd (SchemaScanner.scan true SchemaLenProofs.cex_error_after_endtop) = SchemaScanner.Err 301 5 /\
+  SchemaScanner.schema_len SchemaLenProofs.cex_error_after_endtop = SchemaScanner.VLen 1 /\
+  SchemaScanner.schema_len [] = SchemaScanner.VErr 202 0 /\
+  snd (SchemaScanner.scan true []) = SchemaScanner.Done.
+Proof. exact SchemaLenProofs.schema_len_error_iff_false. Qed.
+Example C14_schema_len_prefix_not_complete :
+  SchemaScanner.schema_len SchemaLenProofs.cex_annotation_popped = SchemaScanner.VLen 13 /\
+  snd (SchemaScanner.scan false (firstn 13 SchemaLenProofs.cex_annotation_popped)) = SchemaScanner.Err 301 10 /\
+  snd (SchemaScanner.scan true (firstn 13 SchemaLenProofs.cex_annotation_popped)) = SchemaScanner.Done /\
+  SchemaScanner.schema_len (firstn 13 SchemaLenProofs.cex_annotation_popped) = SchemaScanner.VLen 10.
+Proof. exact SchemaLenProofs.schema_len_prefix_complete_false. Qed.
+Example C14_schema_len_repaired_a :
+  SchemaScanner.schema_len SchemaLenProofs.cex_trailing_then_newline = SchemaScanner.VLen 1 /\
+  snd (SchemaScanner.scan false (firstn 1 SchemaLenProofs.cex_trailing_then_newline)) = SchemaScanner.Done /\
+  SchemaScanner.schema_len (firstn 1 SchemaLenProofs.cex_trailing_then_newline) = SchemaScanner.VLen 1.
+Proof. exact SchemaLenProofs.repaired_a. Qed.
+Example C14_schema_len_repaired_c :
+  SchemaScanner.schema_len SchemaLenProofs.cex_trailing_then_annotation = SchemaScanner.VLen 1 /\
+  snd (SchemaScanner.scan true (firstn 1 SchemaLenProofs.cex_trailing_then_annotation)) = SchemaScanner.Done /\
+  SchemaScanner.schema_len (firstn 1 SchemaLenProofs.cex_trailing_then_annotation) = SchemaScanner.VLen 1.
+Proof. exact SchemaLenProofs.repaired_c. Qed.
